@@ -561,3 +561,9 @@ Definition ex_other : nxg :=
 Definition ex_store : store :=
   fst (add_graph_direct (fst (add_graph_direct empty_store (S"other") ex_other)) (S"g") ex_graph).
 
+
+(* example data: a store with a cross-graph link (Example C01_cross_link_example) *)
+Definition ex_cross_store : store :=
+  fst (add_graph_direct empty_store (S"g")
+         {| g_nodes := g_nodes ex_graph ++ [(20%N, snd (hd (0%N, []) (g_nodes ex_other)))];
+            g_edges := g_edges ex_graph ++ [(7%N, 20%N, [(P_Class, PStr (S"connects"))])] |}).
